@@ -78,6 +78,10 @@ func (p *levelQuoteProvider) GetRawQuote(reportData [64]byte) ([]uint8, error) {
 }
 
 func (c *extractCommand) levelQuoteProvider(p extract.LeveledQuoteProvider) extract.QuoteProvider {
+	if p == nil {
+		// No quote provider on this machine: extraction falls back to the other sources.
+		return nil
+	}
 	return &levelQuoteProvider{p: p, vmpl: c.vmpl}
 }
 
